@@ -461,8 +461,8 @@ Proof.
   apply Bool.eqb_prop in H2, H3, H4, H5, H6, H7, H8, H9, H10. subst. reflexivity.
 Qed.
 
-Lemma pool_reg_keeps k pl r : r_im (pool_reg k pl r) = r_im r /\ r_nd (pool_reg k pl r) = r_nd r.
-Proof. unfold pool_reg. repeat bm; simpl; split; reflexivity. Qed.
+Lemma pool_then_registered_nd k pl r : r_nd (pool_then_registered k pl r) = r_nd r.
+Proof. unfold pool_then_registered, registered_now. repeat bm; simpl; reflexivity. Qed.
 
 Lemma hook_return_keeps pl r : r_im (hook_return pl r) = r_im r /\ r_nd (hook_return pl r) = r_nd r.
 Proof. unfold hook_return. repeat bm; simpl; split; reflexivity. Qed.
@@ -484,9 +484,9 @@ Proof.
             rewrite ?(proj1 (hook_return_keeps _ _)); simpl; congruence).
   all: destruct (node_eqb n (nd_registered (nd_sync k n))) eqn:Ee.
   all: try (apply node_eqb_true in Ee; intros _; split; [|congruence];
-            rewrite (proj2 (pool_reg_keeps _ _ _)); unfold registered_now; simpl; rewrite En, Ee; reflexivity).
+            rewrite pool_then_registered_nd; unfold registered_now; simpl; rewrite En, Ee; reflexivity).
   all: destruct (f_npatch_reg pl); unfold err_of_wr; simpl; try congruence.
-  all: intros _; split; [|congruence]; rewrite (proj2 (pool_reg_keeps _ _ _)); reflexivity.
+  all: intros _; split; [|congruence]; rewrite pool_then_registered_nd; reflexivity.
 Qed.
 
 (* Initialized turns True only when Registered is True and the node is Ready, without startup and
@@ -573,7 +573,7 @@ Proof.
   { unfold r3, initialization, set_i, err_of_wr. repeat bm; simpl; congruence. }
   (* registration does not touch Initialized *)
   assert (Ri : c_i (r_im r2) = c_i (r_im r1)).
-  { unfold r2, registration, registered_now, pool_reg, hook_return, err_of_wr. repeat bm; simpl; congruence. }
+  { unfold r2, registration, pool_then_registered, registered_now, hook_return, err_of_wr. repeat bm; simpl; congruence. }
   split.
   - rewrite Lr, Ir, Ql4, Ql3, Ql2. intros H.
     destruct (rcond_eqb (c_r (r_im r1)) RTrue) eqn:E.
